@@ -214,6 +214,12 @@ func Open(fileName string, opts *Options) (*AppendableFile, error) {
 		}
 		compressionFormat = cf
 
+		if !isSupportedCompressionFormat(compressionFormat) {
+			// a reader or a writer can not be built for an unknown format
+			f.Close()
+			return nil, fmt.Errorf("%w: unsupported compression format %d", ErrCorruptedMetadata, compressionFormat)
+		}
+
 		cl, ok := m.GetInt(metaCompressionLevel)
 		if !ok {
 			return nil, ErrCorruptedMetadata
@@ -373,6 +379,18 @@ func (aof *AppendableFile) DiscardUpto(off int64) error {
 	}
 
 	return nil
+}
+
+func isSupportedCompressionFormat(compressionFormat int) bool {
+	switch compressionFormat {
+	case appendable.NoCompression,
+		appendable.FlateCompression,
+		appendable.GZipCompression,
+		appendable.LZWCompression,
+		appendable.ZLibCompression:
+		return true
+	}
+	return false
 }
 
 func (aof *AppendableFile) writer(w io.Writer) (cw io.Writer, err error) {
